@@ -66,6 +66,21 @@ CHECKS = {
    "Three generated case kinds share one check: twice-backed-up trees with differing options, histories with every storage operation logged together with the pre-state of its path, and scenarios whose backup is interrupted at every crash point and then resumed.",
    "Zero-length leftovers may be completed; crash granularity is one transport operation.",
    "DESIGN.md 5 C14"),
+ "C08": ("exploration",
+   "exhaustive enumeration of small hand-written archives + property-based larger ones against a reference stitcher (differential), with an order invariant and an output-length termination bound",
+   "The harness writes archives directly in the documented format, so arrangements conserve itself would never produce in a test (absent and head-less slots, id gaps, empty hunks, missing trailing hunks, arbitrary hunk splits) are reachable; every arrangement of 3 band slots over a 3-path (thorough 4-path) universe is enumerated and larger ones are generated. The listing is compared entry-for-entry with a reference implementation of the stitching rule, provenance encoded in mtimes.",
+   "Reference stitcher trusted; head-less directories are not versions.",
+   "DESIGN.md 5 C08"),
+ "C09": ("fault_enumeration",
+   "model-based histories for the healthy side + enumeration of every file x every damage kind for the damage side; oracle = restore comparison decides whether validate owes an error",
+   "Healthy: validate (full and quick) after every step of generated histories must be silent. Damaged: for archives from generated histories every stored file is deleted, emptied, halved, overwritten and (blocks) bit-flipped in turn; whenever some complete version no longer restores exactly, validate must report.",
+   "'Reported' = Err, Monitor error or ERROR-level event; zero-length leftovers are outside the healthy side.",
+   "DESIGN.md 5 C09"),
+ "C10": ("fault_enumeration",
+   "enumeration of every stored file x {delete, truncate, garbage, bit flips} over archives from generated histories; oracles = no panic / bounded listing, independent decoder decides per file entry whether it must restore exactly or must be reported",
+   "For every damaged state all read operations and a new backup are run under catch_unwind with a watchdog; a reference listing with provenance (band, hunk file, block files) decides, per file entry, which obligation applies.",
+   "Quick tier samples a third of the (file, damage) pairs per archive; hunks altered but still decodable carry only the no-crash obligation; deleting the last hunk of an incomplete band is a legal state.",
+   "DESIGN.md 5 C10"),
 }
 
 NOT_BUILT_REASON = "check not built yet in this session (planned, see DESIGN.md section 5); not claimed until its command exists and is silent on the unchanged tree"
